@@ -119,8 +119,8 @@ def make(W, max_packet=8, epnum=1):
 
 def contracts(tier):
     if tier == "quick":
-        cfgs = [(1, 8), (2, 8), (3, 8), (4, 8)]
+        cfgs = [(1, 8), (2, 8), (3, 8), (4, 8), (9, 8)]     # 9: a word wider than 8 bytes (byte counter needs 4 bits; seed P2_1)
     else:
-        cfgs = [(w, 8) for w in (1, 2, 3, 4, 5, 8)] + [(2, 64), (4, 64), (4, 512), (3, 16)]
+        cfgs = [(w, 8) for w in (1, 2, 3, 4, 5, 8)] + [(2, 64), (4, 64), (4, 512), (3, 16), (9, 8)]
     for w, mp in cfgs:
         yield ("USBMultibyteStreamInEndpoint", f"bytes{w}_maxpkt{mp}", make(w, mp))
